@@ -1,0 +1,34 @@
+//go:build verif
+
+// Contracts for the deductive checker in /verif (comment-only).
+
+package aggregator
+
+// ---------------------------------------------------------------- AddMaybe (C03, C11)
+// An aggregation consumes exactly the names its complete filter accepts; with drop-raw the
+// caller is told to withhold exactly those.
+//@ spec aggWf(a *Aggregator) := wfm(a.Matcher) && a.in != nil && !a.reCacheMutex.held && a.Matcher.regex != nil
+//@
+// The per-aggregator match cache is coherent: a cached entry holds the uncached answer. It is
+// established by the constructor (empty cache), preserved by every lookup/insert and by the
+// expiry loop (which only deletes), hence holds after every history of lookups and expiries.
+//@ spec cacheOK(a *Aggregator) := a.reCache != nil ==> (forall k bytes :: has(a.reCache, k) ==>
+//@      (a.reCache[k].match == reOK(a.Matcher, k) && (a.reCache[k].match ==> a.reCache[k].key == reExpand(a.Matcher.Regex, k, a.outFmt[..]))))
+//@
+//@ func (a *Aggregator) matchWithCache(key []byte) (out string, ok bool)
+//@   property C03
+//@   requires aggWf(a) && cacheOK(a)
+//@   modifies a.reCacheMutex.held, a.reCache[..], allof("aggregator.CacheEntry.match"), allof("aggregator.CacheEntry.key"), allof("aggregator.CacheEntry.seen")
+//@   ensures[uncached_answer] ok == reOK(a.Matcher, key[..])
+//@   ensures[expanded]        ok ==> out == reExpand(a.Matcher.Regex, key[..], a.outFmt[..])
+//@   ensures[coherent]        cacheOK(a)
+//@   ensures[unlocked]        !a.reCacheMutex.held
+//@
+//@ func (a *Aggregator) AddMaybe(buf [][]byte, val float64, ts uint32) bool
+//@   property C03,C11
+//@   logged
+//@   requires len(buf) >= 1 && aggWf(a) && cacheOK(a)
+//@   modifies sent(a.in), a.reCacheMutex.held, a.reCache[..], allof("aggregator.CacheEntry.match"), allof("aggregator.CacheEntry.key"), allof("aggregator.CacheEntry.seen")
+//@   ensures[drop_exact; C03,C11] result == (a.DropRaw && matchSpec(a.Matcher, buf[0][..]))
+//@   ensures[unlocked] !a.reCacheMutex.held
+//@   ensures[coherent] cacheOK(a)
